@@ -172,6 +172,15 @@ def r1_agreement(rep, ctx):
                     return True
             if k == "truth" and isinstance(l_, ast.Name):
                 org = res.origins(l_)
+
+                def is_neg_test(t):
+                    if t[0] == "call" and t[1] == ("name", "bool") and len(t[2]) == 1:
+                        t = t[2][0]
+                    return t[0] == "op" and len(t[2]) == 2 and ((t[1] == "cmp:Lt" and t[2][0] == VALUE and t[2][1][0] == "const" and t[2][1][1] == 0)
+                                                                 or (t[1] == "cmp:Gt" and t[2][1] == VALUE and t[2][0][0] == "const" and t[2][0][1] == 0))
+
+                if org and all(is_neg_test(t) for st, t in org):
+                    return True
                 trues = [st for st, t in org if t == ("const", True)]
                 if trues and all(t[0] == "const" and isinstance(t[1], bool) for st, t in org) and all(st is not None and negative_guard(cfg.node_of(st)) for st in trues):
                     return True
